@@ -513,6 +513,11 @@ def _lines(dsc, cct, prof, dh):
   chars = _pools(dsc, cct)
   mid, lead, trail = _code_pools(dsc, prof)
   word = st.lists(chars, min_size=1, max_size=5)
+  if cct in ("01", "02", "03"):
+    # C1h-CFh are letters in these tables and non-spacing diacritical marks in ISO 6937: words that end with one of them, so that a
+    # space or a control code follows it
+    cx = [b for b in range(0xC1, 0xD0) if upper_8859(cct, b) is not None]
+    word = st.one_of(word, st.builds(lambda w, c: w + [c], st.lists(chars, max_size=3), st.sampled_from(cx)))
   if prof["seps"] == "safe":
     # exactly one blank cell between words: a single space or a single control code
     sep = st.one_of(st.just([SPACE]), st.just([SPACE]), mid.map(lambda c: [c]))
